@@ -294,6 +294,8 @@ type Run struct {
 	conds     []Term
 	condMark  []int
 	nameCount map[string]int
+	localBoxes []localBox
+	escaping  map[string]bool
 	ifaceAssigns []Expr
 }
 
@@ -373,6 +375,28 @@ func (r *Run) heapSet(st *State, comp string, t Term) {
 
 // havocAll forgets every heap component (used for calls without a contract).
 func (r *Run) havocAll(st *State, reach Term) {
+	// the boxes of this function's own address-taken / captured locals are not reachable by code that was not
+	// handed their address: they keep their values (r.escaping lists the ones passed to the current call)
+	type kept struct {
+		comp string
+		ref  Term
+		val  Term
+	}
+	var boxes []kept
+	for _, b := range r.localBoxes {
+		if r.escaping[b.ref.S] {
+			continue
+		}
+		if _, ok := r.compSorts[b.comp]; !ok {
+			continue
+		}
+		boxes = append(boxes, kept{b.comp, b.ref, Select(r.heapGet(st, b.comp), b.ref)})
+	}
+	defer func() {
+		for _, b := range boxes {
+			st.heap[b.comp] = r.ctx.Define("keep."+b.comp, Store(r.heapGet(st, b.comp), b.ref, b.val))
+		}
+	}()
 	oldTop := r.heapGet(st, "$top")
 	held := map[string]Term{}
 	for k := range r.compSorts {
@@ -865,4 +889,9 @@ func (r *Run) isLocalGhost(comp string) bool {
 		return false
 	}
 	return r.specs.GhostLocal[parts[len(parts)-2]+"."+parts[len(parts)-1]]
+}
+
+type localBox struct {
+	comp string
+	ref  Term
 }
